@@ -9,13 +9,17 @@
 (*   Read     every Read call the sniffer makes on the stream (want, n)    *)
 (*   Ret      return of Sniffer.TCP: replay bytes (length + "is a prefix   *)
 (*            of the tape" observed by the harness), address before/after  *)
+(*   Later    the replay bytes of that return looked at again when the     *)
+(*            server uses them (after the outbound dial): other hooked     *)
+(*            streams have been sniffed in between (sequentially and       *)
+(*            concurrently); same observation as in Ret                    *)
 (*   UDP      one Sniffer.UDP call: datagram identical afterwards?, address*)
 (* DRIFT_* clauses are not part of the property.                           *)
 EXTENDS Mon
 
 NoTape == [kind |-> "none", len |-> 0, need |-> 0, avail |-> 0, cap |-> 0, hosts |-> <<>>]
 
-MonInit == [viol |-> {}, tape |-> NoTape, consumed |-> 0, armed |-> FALSE, unarmedRead |-> FALSE]
+MonInit == [viol |-> {}, tape |-> NoTape, consumed |-> 0, armed |-> FALSE, unarmedRead |-> FALSE, retOk |-> FALSE]
 
 Recognised(t) == t.kind \in {"http", "tls"}
 Truncated(t)  == t.need = 0 \/ t.avail < t.need
@@ -37,7 +41,7 @@ AddrClauses(t, e) ==
 
 RetStep(m, e, ln) ==
   LET t == m.tape IN
-  [m EXCEPT !.viol = VAll(m.viol, e, ln,
+  [m EXCEPT !.retOk = ~e.err, !.viol = VAll(m.viol, e, ln,
       << <<"Transparent", IF e.err THEN m.consumed > 0
                           ELSE ~(e.prefixOk /\ e.replayLen = m.consumed)>>,
          <<"DRIFT_Deadline", m.armed \/ m.unarmedRead>>,
@@ -57,12 +61,15 @@ MonStep(m, e, ln) ==
   CASE e.ev = "Reset"    -> [MonInit EXCEPT !.viol = m.viol]
     [] e.ev = "Tape"     -> [m EXCEPT !.tape = [kind |-> e.kind, len |-> e.len, need |-> e.need, avail |-> e.avail,
                                                  cap |-> e.cap, hosts |-> e.hosts],
-                                      !.consumed = 0, !.armed = FALSE, !.unarmedRead = FALSE,
+                                      !.consumed = 0, !.armed = FALSE, !.unarmedRead = FALSE, !.retOk = FALSE,
                                       !.viol = V(m.viol, e, ln, "DRIFT_Filter", e.hooked # e.expectHooked)]
     [] e.ev = "Deadline" -> [m EXCEPT !.armed = ~e.zero]
     [] e.ev = "Read"     -> [m EXCEPT !.consumed = m.consumed + e.n,
                                       !.unarmedRead = m.unarmedRead \/ ~m.armed]
     [] e.ev = "Ret"      -> RetStep(m, e, ln)
+    \* the replay bytes are what the target receives when the server writes them, not what they were at return time
+    [] e.ev = "Later"    -> [m EXCEPT !.viol = V(m.viol, e, ln, "Transparent",
+                                                 m.retOk /\ ~(e.prefixOk /\ e.replayLen = m.consumed))]
     [] e.ev = "UDP"      -> UDPStep(m, e, ln)
     [] e.ev = "Panic"    -> [m EXCEPT !.viol = V(m.viol, e, ln, "Panic", TRUE)]
     [] OTHER             -> m
